@@ -29,6 +29,9 @@ pub struct Case {
     /// after the messages: a length prefix declaring this many bytes, followed by `tail_body` bytes
     pub tail_declared: Option<u32>,
     pub tail_body: u8,
+    /// framer and deframer are created in the other mode and switched with `set_mode` (what a connection does after the handshake)
+    #[serde(default)]
+    pub switched: bool,
 }
 
 fn noop_waker() -> Waker {
@@ -155,8 +158,15 @@ fn ref_frame(dist: bool, m: &[u8]) -> Vec<u8> {
 
 pub fn oracle(case: &Case) -> Verdict {
     let mode = if case.dist { FrameMode::Distribution } else { FrameMode::Handshake };
-    let framer = MessageFramer::new(mode);
-    let deframer = MessageDeframer::new(mode);
+    let other = if case.dist { FrameMode::Handshake } else { FrameMode::Distribution };
+    let (framer, deframer) = if case.switched {
+        let (mut f, mut d) = (MessageFramer::new(other), MessageDeframer::new(other));
+        f.set_mode(mode);
+        d.set_mode(mode);
+        (f, d)
+    } else {
+        (MessageFramer::new(mode), MessageDeframer::new(mode))
+    };
     let msgs: Vec<Vec<u8>> = case
         .msg_lens
         .iter()
@@ -285,7 +295,8 @@ pub fn oracle(case: &Case) -> Verdict {
             .class_if(msgs.iter().any(|m| m.is_empty()), "tick")
             .class_if(msgs.iter().any(|m| m.len() >= 65535), "len>=65535")
             .class_if(stream_len > 100_000, "stream>100KB")
-            .class_if(!case.dist, "handshake-mode"),
+            .class_if(!case.dist, "handshake-mode")
+            .class_if(case.switched, "mode-switched-after-construction"),
     )
 }
 
@@ -331,6 +342,7 @@ fn all_chunkings(max_bytes: usize) -> Vec<Case> {
                 eof_at: None,
                 tail_declared: None,
                 tail_body: 0,
+                switched: mask % 2 == 1,
             });
         }
     }
@@ -366,8 +378,9 @@ pub fn strategy() -> impl Strategy<Value = Case> {
             ],
         ),
         0u8..9,
+        any::<bool>(),
     )
-        .prop_map(|(dist, msg_lens, fill, chunks, pending, eof_at, tail_declared, tail_body)| Case {
+        .prop_map(|(dist, msg_lens, fill, chunks, pending, eof_at, tail_declared, tail_body, switched)| Case {
             dist,
             msg_lens,
             fill,
@@ -376,6 +389,7 @@ pub fn strategy() -> impl Strategy<Value = Case> {
             eof_at,
             tail_declared,
             tail_body,
+            switched,
         })
 }
 
@@ -393,7 +407,7 @@ pub fn run(run: &mut Run) {
     run.prop("random-streams", strategy, run.tier.pick(120_000, 3_000_000), oracle);
     if run.tier == crate::engine::Tier::Thorough {
         // a declared length exactly at the cap must be attempted (and then fail with EOF, not InvalidData)
-        let c = Case { dist: true, msg_lens: vec![3], fill: 1, chunks: vec![5], pending: vec![], eof_at: None, tail_declared: Some(CAP as u32), tail_body: 4 };
+        let c = Case { dist: true, msg_lens: vec![3], fill: 1, chunks: vec![5], pending: vec![], eof_at: None, tail_declared: Some(CAP as u32), tail_body: 4, switched: true };
         run.enumerate("at-cap", vec![c].into_iter(), oracle);
     }
     if run.tier == crate::engine::Tier::Thorough {
